@@ -163,8 +163,11 @@ impl builtins::Command for DeclareCommand {
             }
 
             // Do the same for functions.
+            // (A listing restricted by an attribute option shows variables only.)
             if !matches!(verb, DeclareVerb::Local | DeclareVerb::Readonly)
-                && (!self.print || self.function_names_only || self.function_names_or_defs_only)
+                && (!(self.print || self.has_attribute_option())
+                    || self.function_names_only
+                    || self.function_names_or_defs_only)
             {
                 self.display_matching_functions(&context)?;
             }
@@ -465,6 +468,20 @@ impl DeclareCommand {
         Ok((name, assigned_index, initial_value, name_is_array))
     }
 
+    /// Returns whether any attribute option (`-a`, `-x`, `+i`, ...) was given.
+    fn has_attribute_option(&self) -> bool {
+        self.make_indexed_array.to_bool().is_some()
+            || self.make_associative_array.to_bool().is_some()
+            || self.capitalize_value_on_assignment.to_bool().is_some()
+            || self.make_integer.to_bool().is_some()
+            || self.lowercase_value_on_assignment.to_bool().is_some()
+            || self.make_nameref.to_bool().is_some()
+            || self.make_readonly.to_bool().is_some()
+            || self.make_traced.to_bool().is_some()
+            || self.uppercase_value_on_assignment.to_bool().is_some()
+            || self.make_exported.to_bool().is_some()
+    }
+
     fn display_matching_env_declarations(
         &self,
         context: &brush_core::ExecutionContext<'_, impl brush_core::ShellExtensions>,
@@ -550,7 +567,12 @@ impl DeclareCommand {
             .filter(|pair| filters.iter().all(|f| f(*pair)))
             .sorted_by_key(|v| v.0)
         {
-            if self.print {
+            // Only a bare `declare` lists in `name=value` form; `-p`, an attribute option,
+            // `local` and `readonly` list declarations that can be read back.
+            if self.print
+                || self.has_attribute_option()
+                || matches!(verb, DeclareVerb::Local | DeclareVerb::Readonly)
+            {
                 let mut cs = variable.attribute_flags(context.shell);
                 if cs.is_empty() {
                     cs.push('-');
